@@ -482,6 +482,11 @@ func (w *World) writersObligations(prop string) *FuncResult {
 		if !hit {
 			continue
 		}
+		if strings.HasPrefix(wd.Path, "call:") {
+			res.Obls = append(res.Obls, w.callersObligation(wd, prop))
+			res.Notes = append(res.Notes, "callers obligations are syntactic over go/ssa (static callees and interface method names of call, defer and go instructions in the module's functions; closures count for their enclosing function)")
+			continue
+		}
 		path := strings.TrimSuffix(wd.Path, "[]")
 		elems := strings.HasSuffix(wd.Path, "[]")
 		parts := strings.Split(path, ".")
@@ -724,4 +729,77 @@ func (w *World) localAliases(fn *ssa.Function, fc *FuncContract) map[string][]st
 		return nil
 	}
 	return out
+}
+
+// callersObligation: "the only module functions that call F are these" - F given as a function key such as
+// time.Timer.Reset, time.AfterFunc or pfcp.RxTransaction.startTimer.
+func (w *World) callersObligation(wd WritersDecl, prop string) *Obl {
+	target := strings.TrimPrefix(wd.Path, "call:")
+	allowed := map[string]bool{}
+	var problems []string
+	for _, a := range wd.Allowed {
+		allowed[a] = true
+		if _, ok := w.fnByKey[a]; !ok {
+			problems = append(problems, "listed caller "+a+" does not exist")
+		} else if fc := w.contracts[a]; fc == nil || fc.Extern {
+			problems = append(problems, "listed caller "+a+" is not under contract")
+		}
+	}
+	found := map[string]string{}
+	for fn := range ssautil.AllFunctions(w.prog) {
+		if fn.Pkg == nil || !strings.HasPrefix(fn.Pkg.Pkg.Path(), w.modPath) || fn.Blocks == nil {
+			continue
+		}
+		root := fn
+		for root.Parent() != nil {
+			root = root.Parent()
+		}
+		for _, b := range fn.Blocks {
+			for _, in := range b.Instrs {
+				ci, ok := in.(ssa.CallInstruction)
+				if !ok {
+					continue
+				}
+				cc := ci.Common()
+				hit := false
+				if f := cc.StaticCallee(); f != nil {
+					hit = fnKey(f) == target
+				} else if cc.IsInvoke() {
+					hit = w.typeKeyOf(cc.Value.Type())+"."+cc.Method.Name() == target
+				}
+				if hit {
+					k := fnKey(root)
+					if _, dup := found[k]; !dup {
+						found[k] = w.fset.Position(in.Pos()).String()
+					}
+				}
+			}
+		}
+	}
+	var keys []string
+	for k := range found {
+		keys = append(keys, k)
+	}
+	sort.Strings(keys)
+	for _, k := range keys {
+		if !allowed[k] {
+			problems = append(problems, "called by "+k+" ("+found[k]+"), which is not a listed caller")
+		}
+	}
+	goal := "true"
+	if len(problems) > 0 {
+		goal = "false"
+	}
+	return &Obl{Name: "callers{" + target + "}", Goal: goal, Kind: "writers", Fn: "field-writers", Prop: []string{prop}, Detail: strings.Join(problems, "; "),
+		Info: fmt.Sprintf("callers found: %s; allowed: %s", strings.Join(keys, ", "), strings.Join(wd.Allowed, ", "))}
+}
+
+func (w *World) typeKeyOf(t types.Type) string {
+	if p, ok := t.(*types.Pointer); ok {
+		t = p.Elem()
+	}
+	if n, ok := t.(*types.Named); ok && n.Obj().Pkg() != nil {
+		return n.Obj().Pkg().Name() + "." + n.Obj().Name()
+	}
+	return t.String()
 }
